@@ -381,6 +381,10 @@ def monitors_child(rec):
     rng = random.Random(rec.seed + 200); nrng = np.random.default_rng(rec.seed + 201)
     quick = rec.tier == 'quick'
     warnings.simplefilter('ignore')
+    DD = child.Distinct()
+    for fn in ('lhs', 'ppos', 'standard_normal', 'pareto_front'):
+        DD.wrap(S, fn)
+    DD.wrap(B, 'boxplot_stats').wrap(B, 'Boxplot').wrap(V, 'Violin')
     # ---- lhs: one point per stratum
     child.progress('lhs'); ev = 0; bad = 0
     for _ in range(60 if quick else 600):
@@ -408,7 +412,7 @@ def monitors_child(rec):
             S.lhs(*args); bad += 1; _fail(rec, 'lhs', 'reject: inadmissible ranges accepted', args=list(args))
         except ValueError:
             pass
-    rec.bounded_clause('lhs: exactly one sample in each of the n equal strata of every parameter range (float64)', 'n in {1..333} x 1..6 parameters x 5x4 range classes, %d draws' % (60 if quick else 600), ev, ev, False, bad)
+    rec.bounded_clause('lhs: exactly one sample in each of the n equal strata of every parameter range (float64)', 'n in {1..333} x 1..6 parameters x 5x4 range classes, %d draws' % (60 if quick else 600), ev, DD.n('lhs'), False, bad)
     # ---- ppos / standard_normal
     child.progress('ppos'); ev = 0; bad = 0
     for n in list(range(1, 40)) + [100, 365, 1000]:
@@ -423,7 +427,7 @@ def monitors_child(rec):
                 S.ppos(n, c); bad += 1; _fail(rec, 'ppos', 'reject: constant outside [0, 0.5] accepted', nval=n, cst=c)
             except ValueError:
                 pass
-    rec.bounded_clause('ppos: strictly increasing in (0,1), symmetric, constants outside [0,0.5] rejected (float64)', 'n in 1..39, 100, 365, 1000 x 6 constants', ev, ev, False, bad)
+    rec.bounded_clause('ppos: strictly increasing in (0,1), symmetric, constants outside [0,0.5] rejected (float64)', 'n in 1..39, 100, 365, 1000 x 6 constants', ev, DD.n('ppos'), False, bad)
     child.progress('standard_normal'); ev = 0; bad = 0
     for _ in range(150 if quick else 1500):
         n = rng.choice([1, 2, 3, 4, 7, 20, 200])
@@ -444,7 +448,7 @@ def monitors_child(rec):
         S.standard_normal(np.array([1.0, np.nan])); bad += 1; _fail(rec, 'standard_normal', 'reject: NaN accepted')
     except ValueError:
         pass
-    rec.bounded_clause('standard_normal: finite scores, strictly increasing in the ranks, ties share a score (float64)', 'n in {1..200}, continuous and heavily tied data, 3 constants, 3 rank methods', ev, ev, False, bad)
+    rec.bounded_clause('standard_normal: finite scores, strictly increasing in the ranks, ties share a score (float64)', 'n in {1..200}, continuous and heavily tied data, 3 constants, 3 rank methods', ev, DD.n('standard_normal'), False, bad)
     # ---- pareto_front wrapper
     child.progress('pareto_front'); ev = 0; bad = 0
 
@@ -470,7 +474,7 @@ def monitors_child(rec):
                 ok = ok and S.pareto_front(np.asfortranarray(d), orient).tolist() == exp.tolist()
             if not ok:
                 bad += 1; _fail(rec, 'pareto_front', 'dominance: flags differ from the dominance definition / orientation reversal / non-empty front', data=d.tolist(), orientation=orient, observed=got.tolist(), expected=exp.tolist())
-    rec.bounded_clause('pareto_front (python wrapper): flags == brute-force dominance incl. NaN coordinates, orientation reversal == negated data, front of complete data not empty', '0..60 points x 1..5 dimensions, heavy ties, NaN', ev, ev, False, bad)
+    rec.bounded_clause('pareto_front (python wrapper): flags == brute-force dominance incl. NaN coordinates, orientation reversal == negated data, front of complete data not empty', '0..60 points x 1..5 dimensions, heavy ties, NaN', ev, DD.n('pareto_front'), False, bad)
     # ---- boxplot stats
     child.progress('boxplot_stats'); ev = 0; bad = 0
 
@@ -537,7 +541,7 @@ def monitors_child(rec):
         except Exception as e:
             bad += 1; _fail(rec, 'Boxplot.stats', 'crash-by: %s' % repr(e)[:300], data=se.tolist()[:60], by=by.tolist()[:60])
     rec.bounded_clause('boxplot_stats / Boxplot.stats: count of finite values, percentiles at the implied levels in order between min and max, NaN row below 4 values, group-wise == group alone',
-                       'columns of 0..300 values with NaN / +-inf / ties / constant, box coverage 40..90, whiskers above', ev, ev, False, bad)
+                       'columns of 0..300 values with NaN / +-inf / ties / constant, box coverage 40..90, whiskers above', ev, DD.n('boxplot_stats', 'Boxplot'), False, bad)
     # ---- violin
     child.progress('violin'); ev = 0; bad = 0
     for _ in range(20 if quick else 200):
@@ -567,7 +571,7 @@ def monitors_child(rec):
                         bad += 1; _fail(rec, 'Violin.kde', 'density: profile not normalised to [0, 1] on abscissae within the data range', column=cn, data=df[cn].tolist()[:80]); break
         except Exception as e:
             bad += 1; _fail(rec, 'Violin', 'crash: %s' % repr(e)[:300], data={k: v[:40] for k, v in df.to_dict('list').items()})
-    rec.bounded_clause('Violin.stats / kde: quantiles of the finite values in order between min and max; density normalised to [0, 1]', 'columns of 5..200 values with NaN / +-inf / ties', ev, ev, False, bad)
+    rec.bounded_clause('Violin.stats / kde: quantiles of the finite values in order between min and max; density normalised to [0, 1]', 'columns of 5..200 values with NaN / +-inf / ties', ev, DD.n('Violin'), False, bad)
 
 
 def run(tier):
